@@ -19,6 +19,41 @@ import (
 // because SSA has none; address-taken locals with a single store resolve to the
 // stored value. The rendering is used by rule matchers, so rules are keyed on
 // resolved entities and data flow, never on text or line numbers.
+// paramEnv: temporary parameter → canonical-argument bindings used while rendering
+// the body of a small pure helper at one of its (possibly many) call sites.
+var paramEnv = map[*ssa.Parameter]string{}
+
+// pureSmall: an in-repo function with a body made only of arithmetic, comparisons,
+// builtin calls and returns — no stores, no calls with effects. Such helpers
+// (clamp, min/max wrappers, predicates over their arguments) are rendered by value.
+func pureSmall(h *ssa.Function) bool {
+	if h == nil || h.Blocks == nil || len(h.Blocks) > 8 || h.Pkg == nil || !strings.HasPrefix(h.Pkg.Pkg.Path(), modPath) || h.Recover != nil {
+		return false
+	}
+	if mentioned[funcName(h)] || (h.TypeParams() != nil && h.TypeParams().Len() > 0) {
+		return false
+	}
+	n := 0
+	for _, b := range h.Blocks {
+		for _, in := range b.Instrs {
+			n++
+			switch x := in.(type) {
+			case *ssa.BinOp, *ssa.UnOp, *ssa.Phi, *ssa.If, *ssa.Jump, *ssa.Return, *ssa.Convert, *ssa.ChangeType, *ssa.DebugRef:
+				if u, ok := x.(*ssa.UnOp); ok && u.Op == token.MUL {
+					return false // memory read: value may change between sites
+				}
+			case *ssa.Call:
+				if _, ok := x.Call.Value.(*ssa.Builtin); !ok {
+					return false
+				}
+			default:
+				return false
+			}
+		}
+	}
+	return n <= 40
+}
+
 type canoner struct {
 	fn    *ssa.Function
 	memo  map[ssa.Value]string
@@ -90,7 +125,7 @@ func constStr(x *ssa.Const) string {
 }
 
 func (cn *canoner) c(v ssa.Value, d int) string {
-	if s, ok := cn.memo[v]; ok {
+	if s, ok := cn.memo[v]; ok && len(paramEnv) == 0 {
 		return s
 	}
 	if d > canonMaxDepth {
@@ -102,7 +137,7 @@ func (cn *canoner) c(v ssa.Value, d int) string {
 	cn.stack[v] = true
 	s := cn.c1(v, d)
 	delete(cn.stack, v)
-	if !strings.Contains(s, "loop") && !strings.Contains(s, "…") {
+	if !strings.Contains(s, "loop") && !strings.Contains(s, "…") && len(paramEnv) == 0 {
 		cn.memo[v] = s
 	}
 	return s
@@ -276,6 +311,9 @@ func (cn *canoner) c1(v ssa.Value, d int) string {
 	case *ssa.Parameter:
 		for i, p := range x.Parent().Params {
 			if p == x {
+				if s, ok := paramEnv[x]; ok {
+					return s
+				}
 				// a private helper spliced into its caller: the parameter IS the caller's argument
 				if site := helperSite[x.Parent()]; site != nil && i < len(site.Call.Args) {
 					return canon(site.Call.Args[i])
@@ -320,11 +358,15 @@ func (cn *canoner) c1(v ssa.Value, d int) string {
 			return "&" + cn.c(pv, d+1)
 		}
 		idx := 0
+		frame := ""
+		if helperSite[x.Parent()] != nil {
+			frame = "@" + x.Parent().Name() // locals of a spliced helper are distinct from the caller's
+		}
 		for _, b := range x.Parent().Blocks {
 			for _, in := range b.Instrs {
 				if a, ok := in.(*ssa.Alloc); ok {
 					if a == x {
-						return fmt.Sprintf("alloc%d:%s", idx, shortType(x.Type().(*types.Pointer).Elem()))
+						return fmt.Sprintf("alloc%d%s:%s", idx, frame, shortType(x.Type().(*types.Pointer).Elem()))
 					}
 					idx++
 				}
@@ -386,6 +428,39 @@ func (cn *canoner) c1(v ssa.Value, d int) string {
 	case *ssa.Call:
 		if h := isInlined(x); h != nil && h.Signature.Results().Len() == 1 {
 			return helperResult(h, 0, d)
+		}
+		if h := x.Call.StaticCallee(); inlineOn && h != nil && h.Signature.Results().Len() == 1 && pureSmall(h) && len(h.Params) == len(x.Call.Args) && d < 8 {
+			// render the helper's value with its parameters bound to this site's arguments
+			saved := map[*ssa.Parameter]string{}
+			for i, pr := range h.Params {
+				if old, ok := paramEnv[pr]; ok {
+					saved[pr] = old
+				}
+				paramEnv[pr] = cn.c(x.Call.Args[i], d+1)
+			}
+			sub := newCanoner(h) // no memo sharing: the rendering depends on the bindings
+			set := map[string]bool{}
+			for _, b := range h.Blocks {
+				if r, ok := b.Instrs[len(b.Instrs)-1].(*ssa.Return); ok {
+					set[sub.c(r.Results[0], d+1)] = true
+				}
+			}
+			for _, pr := range h.Params {
+				if old, ok := saved[pr]; ok {
+					paramEnv[pr] = old
+				} else {
+					delete(paramEnv, pr)
+				}
+			}
+			var parts []string
+			for s := range set {
+				parts = append(parts, s)
+			}
+			sort.Strings(parts)
+			if len(parts) == 1 {
+				return parts[0]
+			}
+			return "phi(" + strings.Join(parts, "|") + ")"
 		}
 		return cn.call(&x.Call, d)
 	case *ssa.BinOp:
